@@ -209,7 +209,8 @@ fn gen_workload(rng: &mut Rng, thorough: bool) -> Value {
     let raise = g.rng.below(4);
     // a re-entry template as well, in some runs
     let reenter = if g.rng.chance(1, 3) { g.rng.range(2, 4) } else { 0 };
-    json!({"jit": jit, "gc": [gn, gd], "tree": tree, "faults": faults, "raise": raise, "reenter": reenter})
+    let reenter_depth = g.rng.range(1, 3);
+    json!({"jit": jit, "gc": [gn, gd], "tree": tree, "faults": faults, "raise": raise, "reenter": reenter, "reenter_depth": reenter_depth})
 }
 
 impl Scenario for C08 {
@@ -262,7 +263,11 @@ impl Scenario for C08 {
             report::harness_error(format!("prelude failed: {}", e));
         }
         let tree = w["tree"].clone();
-        let src = render(&tree);
+        // the whole tree runs inside a continuation captured before it and left
+        // through that continuation: an entry that the tree leaves behind on the
+        // wind list has its after thunk run (again) by this final escape and shows
+        // in the trace
+        let src = format!("(call/cc (lambda (kend) (let ((rend {})) (kend rend))))", render(&tree));
         let mut armings: Vec<i64> = vec![-1];
         armings.extend(w["faults"].as_array().into_iter().flatten().map(|f| f.as_i64().unwrap()));
         let raise = w["raise"].as_u64().unwrap_or(0);
@@ -353,13 +358,22 @@ impl Scenario for C08 {
         let times = w["reenter"].as_u64().unwrap_or(0);
         if times > 0 {
             vmh::set_context(&format!("{}/reenter", tier));
-            let prog = format!(
-                "(let ((k #f) (n 0)) (dynamic-wind (lambda () (trace! 11)) (lambda () (call/cc (lambda (c) (set! k c))) (set! n (+ n 1)) n) (lambda () (trace! 12))) (if (< n {}) (k #f) n))",
-                times
-            );
+            // the body sits inside 1-3 nested wind extents: every re-entry crosses all of them
+            let depth = w["reenter_depth"].as_u64().unwrap_or(1).clamp(1, 3);
+            let mut body = "(begin (call/cc (lambda (c) (set! k c))) (set! n (+ n 1)) n)".to_string();
+            for i in (1..=depth).rev() {
+                body = format!(
+                    "(dynamic-wind (lambda () (trace! {})) (lambda () {}) (lambda () (trace! {})))",
+                    10 * i + 1,
+                    body,
+                    10 * i + 2
+                );
+            }
+            let prog = format!("(let ((k #f) (n 0)) {} (if (< n {}) (k #f) n))", body, times);
             let res = vmh::eval(&mut engine, &prog);
             let tr = vmh::eval(&mut engine, "(show)").map(|v| v.last().cloned().unwrap_or_default());
-            let exp_tr = format!("({})", (0..times).map(|_| "11 12").collect::<Vec<_>>().join(" "));
+            let one_pass: Vec<String> = (1..=depth).map(|i| (10 * i + 1).to_string()).chain((1..=depth).rev().map(|i| (10 * i + 2).to_string())).collect();
+            let exp_tr = format!("({})", (0..times).map(|_| one_pass.join(" ")).collect::<Vec<_>>().join(" "));
             match (res, tr) {
                 (Ok(v), Ok(t)) => {
                     if v.last().map(|s| s.as_str()) != Some(times.to_string().as_str()) || t != exp_tr {
@@ -424,7 +438,7 @@ impl Scenario for C08 {
     }
 
     fn rule(&self) -> String {
-        "each evaluation = one forked run: a generated expression tree (depth 2-6) over + / trace / dynamic-wind / with-handler (handler bodies are trees too) / fault points / call/cc with escapes to any enclosing continuation / let / map callback / callback of a native procedure (transduce) / apply / tail call / explicit collection; the tree is evaluated once with no fault and once per fault point with that point raising (Scheme error, primitive type error, index error, or host function Err), all on the same engine; optionally a generator-style re-entry of a wind extent 2-4 times; forced full collections at rate {0,1/8,1}, JIT on/off; oracle = a tree evaluator giving the exact value/error and the exact wind/handler trace; non-trivial = a wind extent was entered or a fault reached a handler".into()
+        "each evaluation = one forked run: a generated expression tree (depth 2-6) over + / trace / dynamic-wind / with-handler (handler bodies are trees too) / fault points / call/cc with escapes to any enclosing continuation / let / map callback / callback of a native procedure (transduce) / apply / tail call / explicit collection; the tree is evaluated once with no fault and once per fault point with that point raising (Scheme error, primitive type error, index error, or host function Err), all on the same engine; optionally a generator-style re-entry, 2-4 times, of a body inside 1-3 nested wind extents; forced full collections at rate {0,1/8,1}, JIT on/off; oracle = a tree evaluator giving the exact value/error and the exact wind/handler trace; non-trivial = a wind extent was entered or a fault reached a handler".into()
     }
     fn assumptions(&self) -> Vec<String> {
         vec![
